@@ -61,7 +61,7 @@ var interestingF32 = []uint32{
 }
 
 func genF32(t *rapid.T, label string) uint32 {
-	if rapid.IntRange(0, 3).Draw(t, label+"_k") == 0 {
+	if uni(t, label+"_k", 4) == 0 {
 		return rapid.Uint32().Draw(t, label)
 	}
 	return rapid.SampledFrom(interestingF32).Draw(t, label)
@@ -70,8 +70,8 @@ func genF32(t *rapid.T, label string) uint32 {
 func genPose(t *rapid.T) *[7]uint32 {
 	var p [7]uint32
 	// px doubles as a sequence number in most cases
-	p[0] = math.Float32bits(float32(rapid.IntRange(0, 1000).Draw(t, "seq")))
-	if rapid.IntRange(0, 2).Draw(t, "pose_kind") == 0 {
+	p[0] = math.Float32bits(float32(uni(t, "seq", 1001)))
+	if uni(t, "pose_kind", 3) == 0 {
 		for i := 0; i < 7; i++ {
 			p[i] = genF32(t, "pf")
 		}
@@ -79,12 +79,34 @@ func genPose(t *rapid.T) *[7]uint32 {
 	return &p
 }
 
+// uni draws an integer uniformly from [0,n). rapid's own integer and
+// SampledFrom generators are deliberately biased towards small values, which
+// skews weighted choices; 16 unbiased bits (rapid.Bool) are used instead. The
+// value still shrinks towards 0.
+var bits16 = rapid.SliceOfN(rapid.Bool(), 16, 16)
+
+func uni(t *rapid.T, label string, n int) int {
+	if n <= 1 {
+		return 0
+	}
+	v := 0
+	for _, b := range bits16.Draw(t, label) {
+		v <<= 1
+		if b {
+			v |= 1
+		}
+	}
+	return v % n
+}
+
+func pick[T any](t *rapid.T, label string, xs []T) T { return xs[uni(t, label, len(xs))] }
+
 func weighted(t *rapid.T, label string, kinds []string, w []int) string {
 	total := 0
 	for _, x := range w {
 		total += x
 	}
-	r := rapid.IntRange(0, total-1).Draw(t, label)
+	r := uni(t, label, total)
 	for i, x := range w {
 		if r < x {
 			return kinds[i]
@@ -96,17 +118,17 @@ func weighted(t *rapid.T, label string, kinds []string, w []int) string {
 
 func genEntRef(t *rapid.T) Ref {
 	k := weighted(t, "ent_kind", []string{EntAlive, EntMine, EntForeign, EntEver, EntZero, EntNever}, []int{40, 25, 15, 8, 4, 8})
-	return Ref{Kind: k, N: rapid.IntRange(0, 7).Draw(t, "ent_n")}
+	return Ref{Kind: k, N: uni(t, "ent_n", 8)}
 }
 
 func genTypRef(t *rapid.T) Ref {
 	k := weighted(t, "typ_kind", []string{TypEver, TypZero, TypNever}, []int{86, 5, 9})
-	return Ref{Kind: k, N: rapid.IntRange(0, 3).Draw(t, "typ_n")}
+	return Ref{Kind: k, N: uni(t, "typ_n", 4)}
 }
 
 func genSessRef(t *rapid.T) Ref {
 	k := weighted(t, "sess_kind", []string{SessNew, SessLive, SessCurrent, SessEnded, SessGarbage}, []int{25, 50, 6, 10, 9})
-	return Ref{Kind: k, N: rapid.IntRange(0, 9).Draw(t, "sess_n")}
+	return Ref{Kind: k, N: uni(t, "sess_n", 10)}
 }
 
 func genData(t *rapid.T) []byte {
@@ -120,9 +142,9 @@ func genDagazF(t *rapid.T, n int, extents bool) []uint32 {
 	for i := 0; i < n; i++ {
 		var v float32
 		if extents && i%6 >= 3 {
-			v = float32(rapid.IntRange(1, 400).Draw(t, "ext")) / 100
+			v = float32((1 + uni(t, "ext", 400))) / 100
 		} else {
-			v = float32(rapid.IntRange(-800, 800).Draw(t, "coord")) / 100
+			v = float32((-800 + uni(t, "coord", 1601))) / 100
 		}
 		f = append(f, math.Float32bits(v))
 	}
@@ -130,14 +152,14 @@ func genDagazF(t *rapid.T, n int, extents bool) []uint32 {
 }
 
 func (p Profile) genStep(t *rapid.T, conns int, table []Op) Step {
-	st := Step{Conn: rapid.IntRange(0, conns-1).Draw(t, "conn"), Op: rapid.SampledFrom(table).Draw(t, "op")}
+	st := Step{Conn: uni(t, "conn", conns), Op: pick(t, "op", table)}
 	switch st.Op {
 	case OpJoin:
 		st.Sess = genSessRef(t)
 	case OpEntityAdd:
-		st.Persist = rapid.IntRange(0, 9).Draw(t, "persist") < 3
-		st.Flag = int32(rapid.IntRange(0, 1).Draw(t, "flag"))
-		if rapid.IntRange(0, 4).Draw(t, "has_pose") != 0 {
+		st.Persist = uni(t, "persist", 10) < 3
+		st.Flag = int32(uni(t, "flag", 2))
+		if uni(t, "has_pose", 5) != 0 {
 			st.Pose = genPose(t)
 		}
 	case OpEntityDel:
@@ -145,23 +167,23 @@ func (p Profile) genStep(t *rapid.T, conns int, table []Op) Step {
 	case OpPose:
 		st.Ent = genEntRef(t)
 		st.Pose = genPose(t)
-		if p.NilSub && rapid.IntRange(0, 11).Draw(t, "nosub") == 0 {
+		if p.NilSub && uni(t, "nosub", 12) == 0 {
 			st.NoSub = true
 		}
 	case OpCustom:
-		if rapid.IntRange(0, 99).Draw(t, "big") < p.BigBody {
-			st.BigLen = rapid.SampledFrom([]int{10238, 10239, 10240, 10241, 10242, 10300, 20480, 65536, 1, 5000}).Draw(t, "biglen")
+		if uni(t, "big", 100) < p.BigBody {
+			st.BigLen = pick(t, "biglen", []int{10238, 10239, 10240, 10241, 10242, 10300, 20480, 65536, 1, 5000})
 			st.Data = []byte{rapid.Byte().Draw(t, "bigseed")}
 		} else {
 			st.Data = genData(t)
 		}
-		n := rapid.SampledFrom([]int{0, 0, 0, 1, 1, 2, 3, 5}).Draw(t, "nrcpt")
+		n := pick(t, "nrcpt", []int{0, 0, 0, 1, 1, 2, 3, 5})
 		for i := 0; i < n; i++ {
 			k := weighted(t, "rcpt_kind", []string{PMember, PSelf, PStranger, PGone}, []int{60, 12, 16, 12})
-			st.Rcpts = append(st.Rcpts, Ref{Kind: k, N: rapid.IntRange(0, 5).Draw(t, "rcpt_n")})
+			st.Rcpts = append(st.Rcpts, Ref{Kind: k, N: uni(t, "rcpt_n", 6)})
 		}
 	case OpTypeAdd, OpGetID:
-		st.Name = rapid.SampledFrom([]string{"", "a", "a", "b", "b", "c", "pose.v1"}).Draw(t, "tname")
+		st.Name = pick(t, "tname", []string{"", "a", "a", "b", "b", "c", "pose.v1"})
 	case OpGetName, OpCompList, OpSub, OpUnsub:
 		st.Typ = genTypRef(t)
 	case OpCompAdd, OpCompUpdate:
@@ -172,47 +194,47 @@ func (p Profile) genStep(t *rapid.T, conns int, table []Op) Step {
 		st.Typ = genTypRef(t)
 		st.Ent = genEntRef(t)
 	case OpPingResp:
-		st.Ent = Ref{Kind: weighted(t, "ping_kind", []string{PingOutstanding, PingAnswered, PingUnknown}, []int{70, 15, 15}), N: rapid.IntRange(0, 9).Draw(t, "ping_n")}
-		st.TNano = int32(rapid.SampledFrom([]int{1, 2, 7, 10, 250, 1000, 15000, 1000000}).Draw(t, "delay_us"))
+		st.Ent = Ref{Kind: weighted(t, "ping_kind", []string{PingOutstanding, PingAnswered, PingUnknown}, []int{70, 15, 15}), N: uni(t, "ping_n", 10)}
+		st.TNano = int32(pick(t, "delay_us", []int{1, 2, 7, 10, 250, 1000, 15000, 1000000}))
 	case OpLatency:
 		if p.Latency {
-			st.Count = rapid.SampledFrom([]uint32{0, 2, 3, 3, 3, 4, 5, 8, 50, 51, 60, 1<<32 - 1}).Draw(t, "rounds")
-			st.Name = rapid.SampledFrom([]string{"", "0xWALLET", "0xWALLET", "w"}).Draw(t, "wallet")
+			st.Count = pick(t, "rounds", []uint32{0, 2, 3, 3, 3, 4, 5, 8, 50, 51, 60, 1<<32 - 1})
+			st.Name = pick(t, "wallet", []string{"", "0xWALLET", "0xWALLET", "w"})
 		} else {
-			st.Count = rapid.SampledFrom([]uint32{0, 1, 2, 51, 60, 1<<32 - 1, 3, 5}).Draw(t, "rounds")
+			st.Count = pick(t, "rounds", []uint32{0, 1, 2, 51, 60, 1<<32 - 1, 3, 5})
 			if st.Count == 3 || st.Count == 5 {
 				st.Name = ""
 			} else {
-				st.Name = rapid.SampledFrom([]string{"", "0xWALLET"}).Draw(t, "wallet")
+				st.Name = pick(t, "wallet", []string{"", "0xWALLET"})
 			}
 		}
 	case OpAction:
 		st.Ent = genEntRef(t)
-		st.Name = rapid.SampledFrom([]string{"", "x", "x", "x", "y", "z"}).Draw(t, "aname")
-		st.TSec = rapid.SampledFrom([]int64{0, 1, 5, 5, 5, 7, 10, 253402300799, -1}).Draw(t, "tsec")
-		st.TNano = rapid.SampledFrom([]int32{0, 0, 1, 999999999}).Draw(t, "tnano")
+		st.Name = pick(t, "aname", []string{"", "x", "x", "x", "y", "z"})
+		st.TSec = pick(t, "tsec", []int64{0, 1, 5, 5, 5, 7, 10, 253402300799, -1})
+		st.TNano = pick(t, "tnano", []int32{0, 0, 1, 999999999})
 		st.Data = genData(t)
-		if rapid.IntRange(0, 19).Draw(t, "a_nots") == 0 {
+		if uni(t, "a_nots", 20) == 0 {
 			st.NoTS = true
 		}
-		if rapid.IntRange(0, 19).Draw(t, "a_nosub") == 0 {
+		if uni(t, "a_nosub", 20) == 0 {
 			st.NoSub = true
 		}
 	case OpAsset:
 		st.Ent = genEntRef(t)
-		st.Name = rapid.SampledFrom([]string{"", "asset-a", "asset-a", "asset-b"}).Draw(t, "asset")
+		st.Name = pick(t, "asset", []string{"", "asset-a", "asset-a", "asset-b"})
 	case OpQuad:
-		st.F = genDagazF(t, 6*rapid.IntRange(1, 3).Draw(t, "nquads"), true)
-		st.NoSub = p.NilSub && rapid.IntRange(0, 7).Draw(t, "nosub") == 0
+		st.F = genDagazF(t, 6*(1+uni(t, "nquads", 3)), true)
+		st.NoSub = p.NilSub && uni(t, "nosub", 8) == 0
 	case OpGround, OpRegion:
 		st.F = genDagazF(t, 6, false)
-		st.NoSub = p.NilSub && rapid.IntRange(0, 7).Draw(t, "nosub") == 0
+		st.NoSub = p.NilSub && uni(t, "nosub", 8) == 0
 	case OpReceipt:
-		st.Name = rapid.SampledFrom([]string{"", "r", "receipt-text"}).Draw(t, "rtext")
-		st.Hash = rapid.SampledFrom([][]byte{nil, {1}, {1, 2, 3}}).Draw(t, "rhash")
-		st.Sig = rapid.SampledFrom([][]byte{nil, {9}, {9, 9}}).Draw(t, "rsig")
+		st.Name = pick(t, "rtext", []string{"", "r", "receipt-text"})
+		st.Hash = pick(t, "rhash", [][]byte{nil, {1}, {1, 2, 3}})
+		st.Sig = pick(t, "rsig", [][]byte{nil, {9}, {9, 9}})
 	case OpUnknown:
-		st.Count = rapid.SampledFrom(unknownTypes).Draw(t, "utype")
+		st.Count = pick(t, "utype", unknownTypes)
 	}
 	return st
 }
@@ -222,11 +244,11 @@ var allModules = []string{"vikja", "odal", "dagaz"}
 // GenScript draws one script. All randomness comes from rapid.
 func (p Profile) GenScript(t *rapid.T) Script {
 	var sc Script
-	sc.Cfg.Conns = rapid.IntRange(2, p.MaxConns).Draw(t, "conns")
+	sc.Cfg.Conns = (2 + uni(t, "conns", p.MaxConns-1))
 	if p.Modules != nil {
 		sc.Cfg.Modules = p.Modules
 	} else {
-		mask := rapid.SampledFrom([]int{7, 7, 7, 7, 3, 5, 6, 1, 2, 4, 0}).Draw(t, "modules")
+		mask := pick(t, "modules", []int{7, 7, 7, 7, 3, 5, 6, 1, 2, 4, 0})
 		sc.Cfg.Modules = []string{}
 		for i, m := range allModules {
 			if mask&(1<<i) != 0 {
@@ -234,19 +256,19 @@ func (p Profile) GenScript(t *rapid.T) Script {
 			}
 		}
 	}
-	sc.Cfg.FrameMs = rapid.SampledFrom([]int{1, 15, 15, 50, 100}).Draw(t, "frame_ms")
-	sc.Cfg.ReceiptCap = rapid.SampledFrom([]int{1, 2, 128}).Draw(t, "receipt_cap")
+	sc.Cfg.FrameMs = pick(t, "frame_ms", []int{1, 15, 15, 50, 100})
+	sc.Cfg.ReceiptCap = pick(t, "receipt_cap", []int{1, 2, 128})
 	table := p.opTable()
 	// most connections start by joining: the first creates a session,
 	// the others mostly join an existing one
 	pre := rapid.SliceOfN(rapid.Custom(func(t *rapid.T) int {
-		if rapid.IntRange(0, 99).Draw(t, "prejoin") >= p.JoinBias {
+		if uni(t, "prejoin", 100) >= p.JoinBias {
 			return -1
 		}
-		if rapid.IntRange(0, 4).Draw(t, "pre_new") == 0 {
+		if uni(t, "pre_new", 5) == 0 {
 			return -2
 		}
-		return rapid.IntRange(0, 3).Draw(t, "pre_n")
+		return uni(t, "pre_n", 4)
 	}), sc.Cfg.Conns, sc.Cfg.Conns).Draw(t, "prejoins")
 	for c, k := range pre {
 		switch {
